@@ -39,7 +39,7 @@ ASSUME = [
 
 # ("twin",) = the same digits under the other JSON type (int for a digit-string id)
 KINDS = [("res", ("me",)), ("err", ("me",)), ("req", ("me",)), ("res", ("str", "zz-other")), ("err", ("str", "zz-other")),
-         ("res", ("twin",)), ("notif",), ("prog", True), ("prog", False), ("batch", ("me",)), ("req", ("str", "zz-other"))]
+         ("res", ("twin",)), ("notif",), ("nullerr",), ("nullres",), ("prog", True), ("prog", False), ("batch", ("me",)), ("req", ("str", "zz-other"))]
 IDS = ["a", "123", None, "req-é中", "0", "-5"]
 
 
@@ -60,8 +60,8 @@ def mk(kind, me, n):
         if k == "req":
             return ("req", ids)
         return ("batch", ids)
-    if k == "notif":
-        return ("notif",)
+    if k in ("notif", "nullerr", "nullres"):
+        return (k,)
     return ("prog", kind[1], n % 7)
 
 
